@@ -169,6 +169,7 @@ type Alpha struct {
 	FE       bool // front-end alphabets (C10, C14): {plain, required, two tests} × {valid, missing, nil, empty, failing, uncoercible}
 	Full     bool // C13: fully populated values only (no zero leaf, no empty slice, no nil pointer)
 	Lite     bool // reduced configuration/input alphabets (used where another dimension is added)
+	PathOpt  bool // C02: the test alphabet has a fourth option {t1 with IssuePath("alias"), t2}
 	PathT1   bool // C05: the built-in test t1 of every node is declared with IssuePath("alias@<node>")
 	NegStr   bool // C05: the second test of a string node is the built-in negated test Not().Contains("2") instead of a TestFunc with the same predicate
 	MutPost  bool // C13: value-changing PostTransforms are part of the alphabet {none, one changing, changing + plain}
@@ -183,6 +184,9 @@ func (a *Alpha) primCfgN(k Kind) int {
 		return 6
 	}
 	n := 2 * 3 * 2 * 3
+	if a.PathOpt && k != KBool {
+		n = 2 * 4 * 2 * 3
+	}
 	if a.NoCatch {
 		n /= 2
 	}
@@ -227,8 +231,12 @@ func (a *Alpha) primCfg(n *Node, idx int) {
 	if a.PathT1 && n.Kind != KBool {
 		t1.Path = "alias@" + n.Pos // one alias per schema node (elements of a slice share theirs)
 	}
-	ti := idx % 3
-	idx /= 3
+	nt := 3
+	if a.PathOpt && n.Kind != KBool {
+		nt = 4
+	}
+	ti := idx % nt
+	idx /= nt
 	n.Req = idx%2 == 1
 	idx /= 2
 	n.DefClass = idx % 3
@@ -243,6 +251,11 @@ func (a *Alpha) primCfg(n *Node, idx int) {
 		n.Tests = []TestSpec{t1, t2}
 	case 2:
 		n.Tests = nil
+	case 3:
+		// both tests, the built-in one filed under ONE path that all such nodes share: issues of different nodes
+		// arrive under the same key, interleaved with issues under other keys
+		t1.Path = "alias"
+		n.Tests = []TestSpec{t1, t2}
 	}
 }
 
